@@ -59,6 +59,7 @@ MODULES = {
     "C05": (["C05", "C05r", "C05s"], []),
     "C13": (["C13", "C13r"], [("C05", "C13_leading"), ("C05", "C13_leading_pass")]),
     "C02": (["C02", "E2E"], []),
+    "C04": (["C04", "C04w"], []),
     "C07": (["C07", "C07e"], []),
     "C08": (["C08", "C08s"], []),
     "C10": (["C10", "C19e"], []),
@@ -301,6 +302,14 @@ def supported_expr(rng, depth):
 class C02(Prop):
     id = "C02"
     theorems = []
+    assumes = ["the meaning of the emitted forms is the SPECIFIED Guile/LiPE runtime (Spec/SchemeSem.v, SchemePrelude.v, "
+               "GuileFormat.v); no Guile or LiPE exists in the sandbox",
+               "host renderings (strftime, the %S ratio, the type character, dirname, ctime) are one uninterpreted function on "
+               "the find side and on the Scheme side; differences between find's and Guile's rendering of the same value are "
+               "not covered",
+               "'find's rules' for ages: trunc(age/unit) compared with N for every unit (the manual's rule; the GNU 4.9 binary "
+               "uses another window for -amin/-cmin/-mmin)",
+               "(ice-9 format) directives ~d ~o ~f are assumed available to the policy (loaded by (lipe find))"]
 
     def project(self, case, line):
         return std_struct(line)
